@@ -13,8 +13,14 @@ use cw_storage_plus::Map;
 use cw_utils::NativeBalance;
 use serde::{Deserialize, Serialize};
 
-pub const BONDED: &str = "TOKEN";
+/// StakingInfo::default().bonded_denom — what a lookup that misses the configured StakingInfo falls back to
+pub const DEFAULT_DENOM: &str = "TOKEN";
+/// the bonded denomination most scenarios configure (NOT the default, so that a fallback to the default shows)
+pub const BONDED: &str = "ustake";
 pub const FOREIGN: &str = "OTHER";
+fn default_denom() -> String {
+    DEFAULT_DENOM.to_string()
+}
 pub const D18: u128 = 1_000_000_000_000_000_000;
 pub const NS: u64 = 1_000_000_000;
 pub const YEAR: u64 = 31_536_000;
@@ -57,6 +63,22 @@ pub struct Setup {
     pub ndel: usize,
     /// initial block time (ns)
     pub t0: u64,
+    /// StakingInfo::bonded_denom (replay files written before this field existed used the default)
+    #[serde(default = "default_denom")]
+    pub denom: String,
+}
+
+impl Setup {
+    /// the other denominations whose supply is observed: the default bonded denom (when it is not the configured
+    /// one) and the foreign denom
+    pub fn xdenoms(&self) -> Vec<String> {
+        let mut v = vec![];
+        if self.denom != DEFAULT_DENOM {
+            v.push(DEFAULT_DENOM.to_string());
+        }
+        v.push(FOREIGN.to_string());
+        v
+    }
 }
 
 #[derive(Clone, Debug, Serialize, Deserialize)]
@@ -95,8 +117,14 @@ pub struct Snap {
     pub bal: Vec<U>,
     /// bank balance of "staking_module", decoded from the bank window of App::storage()
     pub pool: U,
-    /// BankQuery::Supply of TOKEN
+    /// BankQuery::Supply of the bonded denom
     pub sup: U,
+    /// BankQuery::AllBalances per account WITHOUT the bonded denom: every other denomination held
+    #[serde(default)]
+    pub xall: Vec<Vec<(String, U)>>,
+    /// BankQuery::Supply of every other watched denomination (Setup::xdenoms)
+    #[serde(default)]
+    pub xsup: Vec<U>,
 }
 
 #[derive(Clone, Debug, Serialize, Deserialize)]
@@ -130,7 +158,7 @@ impl Runner {
                 for (id, bal) in &su2.accts {
                     let mut cs: Vec<Coin> = vec![coin(1_000_000, FOREIGN)];
                     if bal.0 > 0 {
-                        cs.push(coin(bal.0, BONDED));
+                        cs.push(coin(bal.0, su2.denom.as_str()));
                     }
                     router.bank.init_balance(storage, &aaddr(*id), cs).unwrap();
                 }
@@ -138,7 +166,7 @@ impl Runner {
                     .staking
                     .setup(
                         storage,
-                        StakingInfo { bonded_denom: BONDED.into(), unbonding_time: su2.unbond, apr: Decimal::new(Uint128::new(su2.apr.0)) },
+                        StakingInfo { bonded_denom: su2.denom.clone(), unbonding_time: su2.unbond, apr: Decimal::new(Uint128::new(su2.apr.0)) },
                     )
                     .unwrap();
                 for (id, c) in &su2.vals {
@@ -163,7 +191,7 @@ impl Runner {
         let st = self.app.prefixed_storage(b"bank");
         let m: Map<&Addr, NativeBalance> = Map::new("balances");
         match m.may_load(&*st, &Addr::unchecked("staking_module")) {
-            Ok(Some(nb)) => nb.0.iter().filter(|c| c.denom == BONDED).map(|c| c.amount.u128()).sum(),
+            Ok(Some(nb)) => nb.0.iter().filter(|c| c.denom == self.setup.denom).map(|c| c.amount.u128()).sum(),
             _ => 0,
         }
     }
@@ -178,6 +206,12 @@ impl Runner {
                 let da = aaddr(*d);
                 for (v, _) in &su.vals {
                     let q = self.app.wrap().query_delegation(da.clone(), vaddr(*v)).map_err(|e| e.to_string())?;
+                    if let Some(fd) = &q {
+                        // the delegation and its rewards are denominated in the configured bonded denom
+                        if fd.amount.denom != su.denom || fd.accumulated_rewards.iter().any(|c| c.denom != su.denom) {
+                            return Err("Delegation query answers in another denomination".to_string());
+                        }
+                    }
                     s.del.push(q.map(|fd| {
                         (U(fd.amount.amount.u128()), U(fd.accumulated_rewards.iter().map(|c| c.amount.u128()).sum()))
                     }));
@@ -185,6 +219,11 @@ impl Runner {
                         .app
                         .read_module(|router, _api, storage| router.staking.get_rewards(storage, &block, &da, &vaddr(*v)))
                         .map_err(|e| e.to_string())?;
+                    if let Some(c) = &r {
+                        if c.denom != su.denom {
+                            return Err("get_rewards answers in another denomination".to_string());
+                        }
+                    }
                     s.rew.push(r.map(|c| U(c.amount.u128())));
                 }
                 let all = self.app.wrap().query_all_delegations(da.clone()).map_err(|e| e.to_string())?;
@@ -196,15 +235,24 @@ impl Runner {
                         .find(|(v, _)| vaddr(*v) == dl.validator)
                         .map(|(v, _)| *v)
                         .ok_or_else(|| "AllDelegations names an unknown validator".to_string())?;
+                    if dl.amount.denom != su.denom {
+                        return Err("AllDelegations answers in another denomination".to_string());
+                    }
                     row.push((id, U(dl.amount.amount.u128())));
                 }
                 s.all.push(row);
             }
             for (a, _) in &su.accts {
-                s.bal.push(U(self.app.wrap().query_balance(aaddr(*a), BONDED).map_err(|e| e.to_string())?.amount.u128()));
+                s.bal.push(U(self.app.wrap().query_balance(aaddr(*a), su.denom.as_str()).map_err(|e| e.to_string())?.amount.u128()));
+                #[allow(deprecated)]
+                let all = self.app.wrap().query_all_balances(aaddr(*a)).map_err(|e| e.to_string())?;
+                s.xall.push(all.iter().filter(|c| c.denom != su.denom).map(|c| (c.denom.clone(), U(c.amount.u128()))).collect());
             }
             s.pool = U(self.pool_balance());
-            s.sup = U(self.app.wrap().query_supply(BONDED).map_err(|e| e.to_string())?.amount.u128());
+            s.sup = U(self.app.wrap().query_supply(su.denom.as_str()).map_err(|e| e.to_string())?.amount.u128());
+            for d in su.xdenoms() {
+                s.xsup.push(U(self.app.wrap().query_supply(d.as_str()).map_err(|e| e.to_string())?.amount.u128()));
+            }
             Ok(s)
         });
         match r {
@@ -214,7 +262,8 @@ impl Runner {
     }
 
     pub fn apply(&mut self, op: &Op, last: &Snap) -> Ob {
-        let denom = |b: bool| if b { BONDED } else { FOREIGN };
+        let bonded_denom = self.setup.denom.clone();
+        let denom = |b: bool| if b { bonded_denom.as_str() } else { FOREIGN };
         let app = &mut self.app;
         let r: Result<Result<(), String>, String> = catch(|| match op {
             Op::Delegate { d, v, a, bonded } => app
@@ -305,13 +354,15 @@ fn cu(x: &U) -> String {
 }
 fn coq_setup(s: &Setup) -> String {
     format!(
-        "(mkSetup {} {} {} {} {} {})",
+        "(mkSetup {} {} {} {} {} {} {} {})",
         s.unbond,
         s.apr.0,
         coq_list(&s.vals, |(v, c)| format!("({},{})", v, c.0)),
         coq_list(&s.accts, |(a, b)| format!("({},{})", a, b.0)),
         coq_list(&s.accts[..s.ndel], |(a, _)| format!("{}", a)),
-        s.t0
+        s.t0,
+        coq_text(&s.denom),
+        coq_list(&s.xdenoms(), |d| coq_text(d))
     )
 }
 fn coq_op(o: &Op) -> String {
@@ -327,13 +378,15 @@ fn coq_op(o: &Op) -> String {
 }
 fn coq_snap(s: &Snap) -> String {
     format!(
-        "(mkSnap {} {} {} {} {} {})",
+        "(mkSnap {} {} {} {} {} {} {} {})",
         coq_list(&s.del, |x| coq_opt(x, |(a, r)| format!("({},{})", a.0, r.0))),
         coq_list(&s.all, |row| coq_list(row, |(v, a)| format!("({},{})", v, a.0))),
         coq_list(&s.rew, |x| coq_opt(x, cu)),
         coq_list(&s.bal, cu),
         s.pool.0,
-        s.sup.0
+        s.sup.0,
+        coq_list(&s.xall, |row| coq_list(row, |(d, a)| format!("({},{})", coq_text(d), a.0))),
+        coq_list(&s.xsup, cu)
     )
 }
 fn coq_oc(o: Oc) -> &'static str {
@@ -451,7 +504,12 @@ fn su(unbond: u64, apr: u128, vals: &[(u64, u128)], accts: &[(u64, u128)], ndel:
         accts: accts.iter().map(|(a, b)| (*a, U(*b))).collect(),
         ndel,
         t0,
+        denom: BONDED.to_string(),
     }
+}
+fn su_default_denom(mut s: Setup) -> Setup {
+    s.denom = DEFAULT_DENOM.to_string();
+    s
 }
 fn del(d: u64, v: u64, a: u128) -> Op {
     Op::Delegate { d, v, a: U(a), bonded: true }
@@ -530,7 +588,8 @@ pub fn corpus() -> Vec<(&'static str, Setup, Vec<Op>)> {
         // over-redelegate, slash above 1 and of an unknown validator, invalid withdraw address
         (
             "corpus_invalid",
-            su(10, 10 * pc, &[(1, 0), (2, 50 * pc)], &[(1, 30), (2, 1000), (3, 0)], 2, T0 - T0 % NS),
+            // this scenario keeps the DEFAULT bonded denom "TOKEN"
+            su_default_denom(su(10, 10 * pc, &[(1, 0), (2, 50 * pc)], &[(1, 30), (2, 1000), (3, 0)], 2, T0 - T0 % NS)),
             vec![
                 del(1, 1, 0),
                 Op::Delegate { d: 1, v: 1, a: U(5), bonded: false },
@@ -655,7 +714,14 @@ impl Gen<'_> {
             2 => T0 - T0 % NS + NS - 1,
             _ => T0 + rng.below(NS),
         };
-        Setup { unbond, apr: U(apr), vals, accts, ndel, t0 }
+        // mostly a non-default bonded denom; sometimes another one; rarely the default
+        let denom = match rng.below(12) {
+            0 => DEFAULT_DENOM,
+            1 | 2 => "uatom",
+            _ => BONDED,
+        }
+        .to_string();
+        Setup { unbond, apr: U(apr), vals, accts, ndel, t0, denom }
     }
 
     fn amount(&mut self, displayed: u128) -> u128 {
